@@ -24,6 +24,8 @@ Ips == {Ip("none", 0, 0), Ip("constant", 400, 0), Ip("linear", 200, 800), Ip("sm
 Call(s, w, o) == [sec |-> s, w |-> w, o |-> o]
 Calls == {Call(s, w, o) : s \in Secs, w \in Ips, o \in {Ip("none", 0, 0), Ip("linear", -300, 500), Ip("constant", 250, 0)}}
 Books == {[k |-> "rpbook", nel |-> n, calls |-> <<c>>] : n \in {1, 2}, c \in Calls}
+         \* thorough: every ordered pair of calls
+         \cup (IF Depth = "thorough" THEN {[k |-> "rpbook", nel |-> 2, calls |-> <<c1, c2>>] : c1 \in Calls, c2 \in Calls} ELSE {})
          \cup {[k |-> "rpbook", nel |-> 2, calls |-> <<c1, c2>>] :
                  c1 \in {c \in Calls : c.w.t = "linear" /\ c.o.t = "none"},
                  c2 \in {c \in Calls : c.w.t \in {"none", "smooth"} /\ c.o.t = "linear"}}
@@ -49,7 +51,10 @@ Regions == {[k |-> "rpregion", secs |-> ss, w |-> w, o |-> o, ends |-> e, tolk |
               ss \in {<<Seg(<<8, 0>>, FALSE)>>, <<Seg(<<6, 0>>, FALSE), [k |-> "arc", rx |-> 4, ry |-> 4, a0 |-> -90, a1 |-> 0, rot |-> 0]>>,
                       <<[k |-> "cubic", c1 |-> <<3, 0>>, c2 |-> <<6, 2>>, e |-> <<8, 5>>, rel |-> TRUE]>>,
                       <<Seg(<<5, 0>>, FALSE), [k |-> "cubic_smooth", c2 |-> <<4, 3>>, e |-> <<6, 5>>, rel |-> TRUE]>>},
-              w \in {1000, 500}, o \in {0, 750, -750}, e \in {"flush", "round"}, t \in {2, 3}, ro \in {0, 1}}
+              w \in (IF Depth = "thorough" THEN {1000, 500, 250, 1600} ELSE {1000, 500}),
+              o \in (IF Depth = "thorough" THEN {0, 750, -750, 300, -1500} ELSE {0, 750, -750}),
+              e \in (IF Depth = "thorough" THEN {"flush", "round", "halfwidth"} ELSE {"flush", "round"}),
+              t \in (IF Depth = "thorough" THEN {1, 2, 3} ELSE {2, 3}), ro \in {0, 1}}
 RegionsMag == {[k |-> "rpregion", secs |-> ss, w |-> w, o |-> o, ends |-> e, tolk |-> 2, rot |-> ro, mag |-> 2] :
                  ss \in {<<Seg(<<8, 0>>, FALSE)>>, <<Seg(<<5, 0>>, FALSE), [k |-> "cubic_smooth", c2 |-> <<4, 3>>, e |-> <<6, 5>>, rel |-> TRUE]>>},
                  w \in {1000}, o \in {0, 750}, e \in {"flush", "round", "halfwidth"}, ro \in {0, 1}}
